@@ -47,9 +47,7 @@ def feasible(p):
     memo = {}
     for e in p.ev:
         if e[0] == "branch":
-            d = e[1]
-            neg = d.startswith("Not ")
-            key = d[4:] if neg else d
+            key, neg = pathx.split_not(e[1])
             val = (e[2] != neg)
             if key in memo and memo[key] != val:
                 return False
@@ -166,6 +164,8 @@ def implies(desc_, truth, atom, atom_truth=True):
     d = desc_
     if d.startswith("Not "):
         return implies(d[4:], not truth, atom, atom_truth)
+    if atom.startswith("Not "):
+        return implies(d, truth, atom[4:], not atom_truth)
     if d == atom:
         return truth == atom_truth
     sp = _split_top(d)
